@@ -78,7 +78,7 @@ def _only_via(fn, via, targets, is_pass):
         if b in tb:
             return False
         for s_, _l, facts in cfg.out_edges(b):
-            if any(is_pass(f) for f in facts):
+            if fact_passes(is_pass, facts):
                 continue
             if s_ not in seen:
                 seen.add(s_)
